@@ -382,7 +382,7 @@ PROPS = {
                              'random histories are sampled; generated histories are exhaustive up to the stated depth for the reduced-capacity build']),
     'C09': dict(level='model_checking', reasons=ALG_REASONS | {'padding'}, jobs=views_jobs, mc=lambda tier: [mcjob('MC_MzdWords', c, workers=16, timeout=2400) for c in ('MC_MzdWords_c08_w3', 'MC_MzdWords_c13_w3')], assumptions=GEN_ASSUME + [
         'window placements are sampled from the classes row offset {0,1,5} x word offset {0,1,2,3} x parent wider by {0,1,17,64,65,130} columns x rows below or not']),
-    'C02': alg(simple_jobs('elim', 640)),
+    'C02': alg(simple_jobs('elim', 640), mc=lambda tier: gf2_mc(tier) + [mcjob('MC_Echelon', 'MC_Echelon_km%d' % km, workers=12) for km in (1, 2, 6)]),
     'C03': alg(simple_jobs('ple', 480, qshards=12), mc=lambda tier: gf2_mc(tier) + [mcjob('MC_PLE', 'MC_PLE', workers=12), mcjob('MC_PLE', 'MC_PLE_tall', workers=12)]),
     'C04': alg(simple_jobs('trsm', 480), mc=lambda tier: gf2_mc(tier) + [mcjob('MC_TRSM', workers=12, timeout=1800)]),
     'C05': alg(simple_jobs('inv', 320)),
